@@ -513,6 +513,19 @@ func execUnit(o *outcome, data []byte) {
 		}
 	}
 	offerBound := 2*(2*(nf+(2*r+2)*(limit+1))+16) + openAtoms*(r+1)*(limit+2)*(2*r+2)*(limit+1)
+	// A deferred predicate is resolved top-down, once per goal and up to the nesting bound deep; when its rules
+	// read a lattice predicate those lookups are not offers of derived facts and the count says nothing.
+	for _, c := range info.Rules {
+		d, ok := info.Decls[c.Head.Predicate]
+		if !ok || d == nil || !d.DeferredPredicate() {
+			continue
+		}
+		for _, p := range c.Premises {
+			if a, ok := p.(ast.Atom); ok && lattice[a.Predicate] {
+				offerBound = 1 << 60
+			}
+		}
+	}
 	store := countingStore{FactStore: simple, remover: simple, n: &created, bound: bound, lattice: lattice, offered: &offered, offerBound: offerBound}
 	temporal := countingTemporalStore{TemporalFactStore: factstore.NewTemporalStore(), n: &created, bound: bound}
 	guarded(o, func() {
